@@ -159,4 +159,13 @@ CLAIMED["C10"] = {
   "note": "PARTIAL: renaming-commutation of the whole pipeline is not proved; shell builtins/keywords/environment names and the Batch case folding are outside the model.",
   "technique": "Coq proof (reserved-name class, non-capture) + renamed-program runs through the implementation under /bin/bash",
 }
+CLAIMED["C05"] = {
+  "text": "An executable Gallina model of cmd.exe for the emitted subset (extracted) runs the Batch script of targeted and generated programs; its output and exit status must equal "
+          "the reference semantics and the Bash run. Theorems about the model's building blocks: 32-bit set /A agrees with the reference arithmetic, IF on printed integers is "
+          "numeric (and string-wise on quoted operands: the repaired slice-helper defect), unique labels are found from everywhere, printed integers are read back exactly. "
+          "Batch script bytes are identical between model and implementation on every case.",
+  "ref": "DESIGN.md section 10.2 / C05",
+  "note": "PARTIAL and weaker than the other claims: the cmd.exe model cannot be validated against the real interpreter here; no whole-program preservation theorem.",
+  "technique": "Coq model of cmd.exe (extracted) run on emitted scripts against the reference semantics + theorems on its arithmetic, comparison and label search",
+}
 NOT_CLAIMED = {}
